@@ -43,6 +43,7 @@ ScnOf(ev) == [sc |-> ev.sc, id |-> ev.id, sname |-> ev.sname, pubname |-> ev.pub
               cert |-> ev.cert, cfg_list |-> ev.cfg_list, retry_list |-> RetryListOf(ev.srv_keys)]
 \* the harness built the configuration the scenario asks for (else the machinery is broken, not the library)
 ScnSane(ev, c) == /\ ev.server \in ServerModes /\ ev.cert \in CertKinds /\ ev.sname # ev.pubname
+                  /\ ShapeSane(ev.shape, ParseCfgList(ev.cfg_list))
                   /\ c.ok /\ c.id = ev.cfgid /\ c.maxlen = ev.maxlen /\ c.pubname = ev.pubname /\ PickSuite(c).aead = ev.aead
 OnScn(ev) == /\ scn' = ScnOf(ev)
              /\ cli' = C_BuildOuter(CInit) /\ srv' = SInit /\ obs' = ObsInit /\ aux' = [AuxInit EXCEPT !.done = FALSE]
@@ -107,19 +108,12 @@ ObsClient(ev) == [cli EXCEPT !.pc = "done", !.accepted = ev.cs.ech, !.ech = ev.c
 \* the server's report: its ConnectionState when its handshake completed, else what it had decided (the name it acted on, an inner hello opened)
 ObsServer(ev) == [srv EXCEPT !.ech = ev.ss.ech, !.sni = IF ev.sok \/ ev.ss.sni # <<>> THEN ev.ss.sni ELSE aux.srvname]
 HellosProcessed == IF srv.pc = "wait_ch" THEN 0 ELSE IF srv.pc = "wait_ch2" THEN 1 ELSE Len(obs.chs)
-OnResult(ev) ==
-  /\ UNCHANGED <<scn, obs>>
-  /\ cli' = ObsClient(ev) /\ srv' = ObsServer(ev)
-  /\ aux' = [aux EXCEPT !.done = TRUE]
-  /\ rej' = rej
-       \cup (IF aux.done THEN Fail("order", "result-without-scenario") ELSE {})
-       \cup (IF ev.cpanic # "" THEN Fail("panic", "client-panic") ELSE {})
-       \cup (IF ev.prep \/ ev.tail # 0 THEN Fail("machinery", "harness") ELSE {})
+\* everything the result of a scenario shows
+ResultProblems(ev) ==
+       (IF aux.done THEN Fail("order", "result-without-scenario") ELSE {})
        \* bytes
-       \cup Fails("leak", P_NoLeak(obs, scn))
        \cup Fails("outer", P_Outer(obs, scn))
        \cup Fails("inner", P_Inner(obs, scn))
-       \cup Fails("decrypt", P_Decrypt(obs, scn, HellosProcessed))
        \cup (IF obs.chs = <<>> THEN Fail("outcome", "no-client-hello-sent") ELSE {})
        \* outcome: the error type the scenario demands (verification name chosen by acceptance)
        \cup {<<scn.sc, p[1], ToString(<<p[2], p[3]>>)>> : p \in P_Outcome(ObsClient(ev), scn)}
@@ -132,6 +126,21 @@ OnResult(ev) ==
        \cup (IF ev.cs.ech /\ ~SrvDecrypts(scn) THEN Fail("report", "client-reports-ECHAccepted-although-server-cannot-decrypt") ELSE {})
        \* after a HelloRetryRequest the client answers with a second hello
        \cup (IF obs.hrr # 0 /\ Len(obs.chs) < 2 THEN Fail("outcome", "no-second-hello-after-hello-retry-request") ELSE {})
+\* what holds whatever else happened
+AlwaysProblems(ev) ==
+       (IF ev.cpanic # "" THEN Fail("panic", "client-panic") ELSE {})
+       \cup (IF ev.prep \/ ev.tail # 0 THEN Fail("machinery", "harness") ELSE {})
+       \cup Fails("leak", P_NoLeak(obs, scn))
+OnResult(ev) ==
+  /\ UNCHANGED <<scn, obs>>
+  /\ cli' = ObsClient(ev) /\ srv' = ObsServer(ev)
+  /\ aux' = [aux EXCEPT !.done = TRUE]
+  \* a server that holds the key and cannot open the client's hello is the root cause of everything that follows in that
+  \* scenario (a rejection instead of an acceptance, retry configs, another verification name): only the cause is reported
+  /\ rej' = (IF P_Decrypt(obs, scn, HellosProcessed) # {}
+             THEN {r \in rej : r[1] # scn.sc \/ r[2] \in {"machinery", "calibration"}} \cup Fails("decrypt", P_Decrypt(obs, scn, HellosProcessed))
+             ELSE rej \cup ResultProblems(ev))
+            \cup AlwaysProblems(ev)
 
 Step == /\ l <= Len(Trace)
         /\ l' = l + 1
